@@ -32,12 +32,22 @@ def year_start(day):
 
 
 def build(key, variant, i):
+    qual = key.split(':')[1]
+    if qual == 'DashTiming.calculate_vod_params':
+        ref = StreamTimingReference(media_name='ref', media_duration=int(i['ref_dur']), num_media_segments=10,
+                                    segment_duration=int(i.get('ref_sd', 1)), timescale=int(i['ref_ts']))
+        t = DashTiming.__new__(DashTiming)
+        now = to_dt(i['now'])
+        t.mode, t.now, t.publishTime, t.stream_reference, t.leeway = 'vod', now, now.replace(microsecond=0), ref, datetime.timedelta(0)
+        env = {'self': t, 'now': now, 'options': NS(mode='vod'), 'ref_dur': ref.media_duration, 'ref_ts': ref.timescale,
+               'us': us_of, 'micros': us_of}
+        return {'env': env, 'old_env': dict(env), 'call': lambda: t.calculate_vod_params(now, NS(mode='vod'))}
     now_us = int(i['now'])
     now = to_dt(now_us)
     ref = StreamTimingReference(media_name='ref', media_duration=int(i['ref_sd']) * 10, num_media_segments=10,
                                 segment_duration=int(i['ref_sd']), timescale=int(i['ref_ts']))
     opt = lambda none, val: None if i[none] else int(i[val])
-    start = to_dt(i['opt_ast']) if variant == 'explicit' else variant
+    start = to_dt(i['opt_ast']) if variant == 'explicit' else (variant if variant in ('epoch', 'today', 'month', 'year', 'now') else 'epoch')
     options = NS(mode='live', availabilityStartTime=start, timeShiftBufferDepth=opt('depth_none', 'opt_depth'),
                  minimumUpdatePeriod=opt('mup_none', 'opt_mup'), leeway=opt('leeway_none', 'opt_leeway'))
     t = DashTiming.__new__(DashTiming)
@@ -54,6 +64,14 @@ def build(key, variant, i):
         'us': us_of, 'optval': lambda x: x, 'zmin': min, 'zmax': max,
     }
     old = dict(env)
+    if qual == 'DashTiming.__init__':
+        options.mode = variant
+        env['ref_dur'] = ref.media_duration
+        env['micros'] = us_of
+        t2 = DashTiming.__new__(DashTiming)
+        env['self'] = t2
+        env['stream_ref'] = ref
+        return {'env': env, 'old_env': old, 'call': lambda: t2.__init__(now, ref, options)}
     return {'env': env, 'old_env': old, 'call': lambda: t.calculate_live_params(now, options)}
 
 
